@@ -21,9 +21,12 @@ type VerifSessionState struct {
 	HasRecvSentB bool
 }
 
-// VerifSnapshot returns the relay's private state. The caller must ensure no
-// server goroutine is running (quiescence).
+// VerifSnapshot returns the relay's private state. It is meant to be called at
+// quiescence; it takes the server's lock so that the free-running race pass
+// does not report the harness's own reads.
 func (s *Server) VerifSnapshot() (peers map[string][]string, listening map[string]bool, sessions []VerifSessionState) {
+	s.mtx.Lock()
+	defer s.mtx.Unlock()
 	peers = map[string][]string{}
 	listening = map[string]bool{}
 	for k, t := range s.peers {
